@@ -11,6 +11,11 @@ git -C /repo archive HEAD src | tar -x -C "$S/clean"
 cp /repo/src/pylife/rainflow_ext*.so "$S/clean/src/pylife/"
 cp -r "$S/clean/src" "$S/mut/src"
 (cd "$S/mut" && patch -p1 -s < "$D/patch.diff") || { echo "patch does not apply"; exit 9; }
+# a patch to extension.pyx: the demonstration must import the kernel built from the changed .pyx (the checks rebuild it themselves, pv/extbuild.py)
+if grep -q 'extension.pyx' "$D/patch.diff"; then
+  so=$(cd /verif && PV_REPO="$S/mut" /venv/bin/python -c "from pv import extbuild; print(extbuild.build())" 2>/dev/null | tail -1)
+  [ -f "$so" ] && cp "$so" "$S/mut/src/pylife/$(basename /repo/src/pylife/rainflow_ext*.so)" && echo "(extension rebuilt from the changed extension.pyx for the demonstration)"
+fi
 echo "== demonstration on the unchanged tree"
 (cd "$S" && PYTHONPATH="$S/clean/src" timeout 900 /venv/bin/python "$D/demonstration.py" > "$S/demo_clean.txt" 2>&1; echo "exit=$?" | tee -a "$S/demo_clean.txt" | tail -1)
 echo "== demonstration on the changed tree"
